@@ -178,7 +178,14 @@ def planar (fovy aspect height near far : α) : Option (M4 α) :=
     let focalPoint := -((1 : α) / invF)
     if absDiffEqD (sabs aspect) (0 : α) then none
     else if absDiffEqD far near then none
-    else if ¬ (focalPoint < smin far near ∨ smax far near < focalPoint) then none
+    -- IEEE semantics of `inv_f = tan(fovy/2) * 2 / height` and `focal_point = -inv_f.recip()` where a field has no
+    -- infinities (`x / 0 = 0`): with `tan(fovy/2) = 0` (fovy = 0, the documented orthographic case) and a positive height,
+    -- `inv_f = 0`, the focal point is an infinity and never between the planes; with `tan = 0` and `height = 0`,
+    -- `inv_f = 0/0 = NaN` and the assertion fails; with `tan ≠ 0` and `height = 0`, `inv_f` is an infinity, the focal
+    -- point `∓0` -- which is what `-(1 / (t * 2 / 0)) = 0` gives here.  "Zero" is written with the order relation only.
+    else if ((¬ Rad.tan (fovy / (two : α)) < 0 ∧ ¬ 0 < Rad.tan (fovy / (two : α))) ∧ ¬ 0 < height) then none
+    else if ¬ (((¬ Rad.tan (fovy / (two : α)) < 0 ∧ ¬ 0 < Rad.tan (fovy / (two : α))) ∧ 0 < height) ∨
+               focalPoint < smin far near ∨ smax far near < focalPoint) then none
     else some (planarMat fovy aspect height near far)
 end proj
 
